@@ -117,7 +117,7 @@ end
 
 /-- exception classes caught by `celpy.evaluation.result()` -/
 def resultCaught : List Exc :=
-  [.valueError, .keyError, .typeError, .zeroDiv, .overflow, .indexError, .nameError]
+  [.valueError, .keyError, .typeError, .zeroDiv, .overflow, .indexError, .nameError, .attributeError]
 
 /-- `celpy.evaluation.result(activation, cel_expr)` -/
 def result (r : PyM O) : PyM O :=
